@@ -70,12 +70,17 @@ func main() {
 		r.Capitalize = []spg.CapScheme{spg.CSNone, spg.CSFirst, spg.CSAll, spg.CSRandom, spg.CSOne}[i%5]
 		wlRecipes = append(wlRecipes, r)
 	}
-	// reference values computed before any concurrency
+	// one more shared recipe that no call has touched before the goroutines start (its reference
+	// values come from a deep copy): an empty custom entry before non-empty ones, which is legal
+	charRecipes = append(charRecipes, &spg.CharRecipe{Length: 14, Allow: spg.Lowers, RequireSets: []string{"", "12", "CD", "34"}})
+	// reference values computed before any concurrency, on deep copies
 	alpha := make([]string, len(charRecipes))
 	ent := make([]float32, len(charRecipes))
 	for i, r := range charRecipes {
-		alpha[i] = r.Alphabet()
-		ent[i] = r.Entropy()
+		c := *r
+		c.RequireSets = append([]string(nil), r.RequireSets...)
+		alpha[i] = c.Alphabet()
+		ent[i] = c.Entropy()
 	}
 	wlEnt := make([]float32, len(wlRecipes))
 	for i, r := range wlRecipes {
